@@ -34,6 +34,18 @@ type ChunkPolicy func(avail, req int, off int64) int
 // All delivers everything that is available (coalescing separate writes).
 func All() ChunkPolicy { return func(avail, req int, off int64) int { return avail } }
 
+// AllButLast delivers everything that is available except its last byte,
+// which is delivered by the next read: every burst the writer has completed
+// is split one byte before its end.
+func AllButLast() ChunkPolicy {
+	return func(avail, req int, off int64) int {
+		if avail > 1 {
+			return avail - 1
+		}
+		return avail
+	}
+}
+
 // Fixed delivers at most k bytes per read.
 func Fixed(k int) ChunkPolicy {
 	return func(avail, req int, off int64) int { return k }
